@@ -12,6 +12,7 @@ if os.environ.get("VERIF_FACTS_DIR") and os.path.exists(os.path.join(os.environ[
     # regression tooling: the grammar of the scratch tree the facts were extracted from
     GRAMMAR = os.path.join(os.environ["VERIF_FACTS_DIR"], "_raw", "grammar.pest")
 B = "nitrogql_parser::parser::builder"
+PAIRS = "pest::iterators::pairs::Pairs<"
 TABLE = os.path.join(harness.VERIF, "tables", "field_fill.json")
 
 _cache = {}
@@ -73,8 +74,8 @@ def r07a(P, R):
     # entry: the builder of each document type (anchored by the AST type it returns) is entered with that document's top rule
     for name, ret, top in (("build_operation_document", "nitrogql_ast::operation_ext::OperationDocumentExt", "ExecutableDocument"),
                            ("build_type_system_or_extension_document", "nitrogql_ast::type_system::TypeSystemOrExtensionDocument", "TypeSystemExtensionDocument")):
-        cands = [f for f in ai.fns.values() if (f.sig_output or "").split("<")[0] == ret
-                 and any("pest::iterators" in (t or "") for t in f.sig_inputs)]
+        cands = [f for f in ai.fns.values() if ((f.sig_output or "").split("<")[0] == ret or ("<" + ret) in (f.sig_output or "").replace(" ", ""))
+                 and any(PAIRS in (t or "") for t in f.sig_inputs)]
         if len(cands) != 1:
             R.undecided("R07-a", "entry:" + name, "kind=anchor-missing: %d builder functions take pairs and return %s" % (len(cands), ret.split("::")[-1]))
             continue
@@ -101,7 +102,8 @@ def r07b(P, R):
             R.check("R07-b", key, o["ok"] and not d.get("dead"), o["msg"],
                     "texts the grammar can produce for %s and the string arms that consume them differ: unhandled %s, dead arms %s"
                     % (o["rule"], d.get("unhandled"), d.get("dead")), loc=o["loc"])
-    R.floor("R07-b", "text matches", n, 2)
+    # a finite keyword language may equally be consumed rule-wise (`match kw.as_rule() { Rule::KEYWORD_x => Variant, .. }`)
+    R.floor("R07-b", "text matches", n + sum(1 for t in ai.rule_tables if t.get("ctors")), 2)
 
     def tables_for(rule):
         """the matches that consume the text of a pair of `rule`, wherever they live (anchored by what they consume)"""
@@ -125,8 +127,18 @@ def r07b(P, R):
             R.holds("R07-b", key, "%s -> U+%04X" % (esc, ord(ch)), loc=arms[0][0]["loc"])
     wanto = {"query": "Query", "mutation": "Mutation", "subscription": "Subscription"}
     tabs = tables_for("OperationType")
-    if not tabs:
-        R.undecided("R07-b", "operation-type", "no `match` over the text of an OperationType pair found: the keyword -> OperationType mapping is not decided")
+    # the same mapping spelled over the keyword *rules* (`match kw.as_rule() { Rule::KEYWORD_query => OperationType::Query, .. }`)
+    by_rule = [t for t in ai.rule_tables if any("OperationType::" in (v or "") for v in t.get("ctors", {}).values())]
+    for t in by_rule:
+        for r, ctor in sorted(t["ctors"].items()):
+            if "OperationType::" in ctor and "KEYWORD_" in r:
+                word = r.split("KEYWORD_")[1]
+                made = ctor.split("::")[-1]
+                R.check("R07-b", "operation-type:" + word, made == wanto.get(word), "%s -> %s" % (word, wanto.get(word)),
+                        "keyword `%s` builds OperationType::%s" % (word, made), loc=t["loc"])
+    if not tabs and not by_rule:
+        R.undecided("R07-b", "operation-type", "no `match` over the text (or the keyword rule) of an OperationType pair found: the keyword -> OperationType "
+                    "mapping is not decided")
     for t in tabs:
         for l, a in sorted(t["arms"].items()):
             made = (a["ctor"] or "").split("::")[-1] if a["ctor"] and "OperationType::" in a["ctor"] else None
@@ -472,17 +484,32 @@ def _pair_prim(P, name):
     return hits[0] if len(hits) == 1 else None
 
 
-def _pos_conversion(tp):
+def _pos_conversion(P, tp):
     """("ok" | "bad" | "unknown", message) for the 1-based -> 0-based conversion in to_pos"""
-    calls = [c for c in tp.walk() if c.get("k") == "Call" and (call_name(c) or "").endswith("base::Pos::new")]
-    if len(calls) != 1 or len(calls[0]["args"]) != 2:
-        return "unknown", "to_pos does not build its result with one Pos::new(line, column) call"
-    comps, tuples = {}, set()
-
     def strip(e):
         while isinstance(e, dict) and e.get("k") in ("DropTemps", "Use", "AddrOf", "Cast", "Type"):
             e = e["e"]
         return e
+    comps, tuples = {}, set()
+    calls = [c for c in tp.walk() if c.get("k") == "Call" and (call_name(c) or "").endswith("base::Pos::new")]
+    if not calls:
+        # the conversion lives in a helper that receives `pair.line_col()` whole (`Pos::from_one_based(self.line_col())`)
+        for c in tp.walk():
+            g = P.fns.get(call_name(c) or "") if c.get("k") == "Call" else None
+            if g is not None and len(c["args"]) == 1 and len(g.params) == 1 and strip(c["args"][0]).get("k") == "MethodCall" \
+                    and strip(c["args"][0])["method"] == "line_col":
+                pat = g.params[0]
+                if pat.get("k") == "Tuple" and len(pat["ps"]) == 2 and all(p.get("k") == "Binding" for p in pat["ps"]):
+                    comps[pat["ps"][0]["local"]], comps[pat["ps"][1]["local"]] = 0, 1
+                elif pat.get("k") == "Binding":
+                    tuples.add(pat["local"])
+                else:
+                    continue
+                tp = g
+                calls = [x for x in tp.walk() if x.get("k") == "Call" and (call_name(x) or "").endswith("base::Pos::new")]
+                break
+    if len(calls) != 1 or len(calls[0]["args"]) != 2:
+        return "unknown", "to_pos does not build its result with one Pos::new(line, column) call"
     for n in tp.walk():
         if n.get("k") == "Let" and "init" in n:
             init = strip(n["init"])
@@ -528,7 +555,7 @@ def r07e(P, R):
     if tp is None:
         R.undecided("R07-e", "to_pos", "kind=anchor-missing: no unique `to_pos` implemented for pest's Pair")
     else:
-        verdict, msg = _pos_conversion(tp)
+        verdict, msg = _pos_conversion(P, tp)
         if verdict == "unknown":
             R.undecided("R07-e", "to_pos", msg, loc=tp.loc())
         else:
